@@ -252,7 +252,14 @@ let tc_hyp (tb : tables) (q : string) : bool option =
   match split_on ':' q with
   | ["tc"; n; ts] ->
     let ni = int_of_string n and tsi = int_of_string ts in
-    if ni < 1 || ni > int_of_n (C09Spec.nsamples tb) || tsi < 1 then None else
+    if tsi < 1 then None
+    else if ni < 1 || ni > int_of_n (C09Spec.nsamples tb) then begin
+      (* C09_time_code_past_end: number 0 or past the last sample -> the time code of the end of the track *)
+      let total = L.fold_left BinNat.N.add BinNums.N0 (C09Spec.durs tb) in
+      let want = C09TimeCodeModel.coq_S_time_code total (n_of_int tsi) in
+      if not (fits_i64 (dec_of_zbig want)) then None
+      else Some (C09TimeCodeModel.stts_get_time_code tb.t_stts_count tb.t_stts_delta (n_of_int ni) (n_of_int tsi) = Ok want)
+    end else
       (match C09Spec.coq_S_decode_time tb (n_of_int ni) with
        | Some t ->
          let want = C09TimeCodeModel.coq_S_time_code t (n_of_int tsi) in
